@@ -85,13 +85,30 @@ def run(prog, R):
         elif any("syntax_to_semantic" in n_ for n_ in names):
             R.ob("C03.3-recursion", "syntax_to_semantic over included files", True, prog.body(comp[0]).at, "recursion descends into SourceFile.included, a finite tree built by the include pre-pass (its own termination: C18.6)")
         elif names == ["promote_base_type"]:
-            R.ob("C03.3-recursion", "promote_base_type", True, prog.body(comp[0]).at, "self-call with swapped arguments from the mirrored arms only; the direct arms do not recurse (C20.1 evaluates the function to completion on all 44x44 abstract argument pairs)")
+            badp = inventory.premise_failures(prog, "C03", ["C20:C20.1-", "C20:C20.3-total"])
+            R.ob("C03.3-recursion", "promote_base_type", not badp, prog.body(comp[0]).at,
+                 "self-call with swapped arguments from the mirrored arms only; the direct arms do not recurse: C20.1 evaluates the function to completion on all abstract argument pairs" if not badp else
+                 f"the recursion of promote_base_type is no longer shown to terminate: the table evaluation of C20 fails or does not complete for {badp[:4]} (two mirrored arms that both swap and recurse call each other forever)")
         elif any("parse_source_and_includes" in n_ or "parse_one_included" in n_ for n_ in names):
             R.ob("C03.3-recursion", "include pre-pass", False, prog.body(comp[0]).at, "parse_source_and_includes -> parse_included_files -> parse_one_included -> parse_source_and_includes recurses on file contents with no visited set or depth bound (a self-including file never terminates normally)")
         elif any("have_syntax_errors" in n_ or "num_syntax_errors" in n_ or "all_syntax_errors" in n_ or "any_semantic_errors" in n_ or "print" in n_ for n_ in names):
             R.ob("C03.3-recursion", "+".join(names)[:80], True, prog.body(comp[0]).at, "recursion over the finite tree of included files / include error lists")
         else:
             R.ob("C03.3-recursion", "+".join(names)[:100], False, prog.body(comp[0]).at, f"recursion cycle without a recognised ranking argument: {names}")
+    # ---- C03.6 statement arms that yield no graph statement.  block_or_stmt_to_asg_type unwraps the translation of a
+    # brace-less single-statement body (a listed finding for the three arms below); every *other* statement kind must
+    # translate to Some(..), else one more kind of body panics there
+    stb = prog.body(S2S + "stmt_to_asg_stmt")
+    if stb:
+        psn, _ = paths(prog, stb.npath)
+        none_arms = set()
+        for p in psn:
+            if "__diverged__" not in p.env and show(deep_strip(p.env.get(0))) == "Option::None":
+                none_arms.add(str(arm_of(prog, p, STMT_ENUM, "stmt")))
+        for a_ in sorted(none_arms):
+            R.ob("C03.6-none-returning-arm", a_, a_ in ("VersionString", "Include", "AnnotationStatement"), stb.at,
+                 f"the {a_} arm of stmt_to_asg_stmt returns None" + ("" if a_ in ("VersionString", "Include", "AnnotationStatement") else ": as the brace-less body of if / while / for this statement makes block_or_stmt_to_asg_type unwrap None (panic)"))
+        R.ob("C03.6-none-returning-arm", "evaluated", len(none_arms) >= 1, stb.at, f"arms returning None: {sorted(none_arms)}")
     # ---- C03.4 not-implemented arms reach no panic
     st = prog.body(S2S + "stmt_to_asg_stmt")
     if st:
